@@ -7,7 +7,7 @@ import os, sys, tempfile, shutil
 def _scenarios():
     sm = "#TITLE:x;\n#ARTIST:y;\n#BPMS:0.000=120.000;\n#NOTES:dance-single:d:Easy:1:0,0:0000\n0000;\n"
     ssc = "#VERSION:0.83;\n#TITLE:x;\n#NOTEDATA:;\n#STEPSTYPE:dance-single;\n#NOTES:0000\n0000;\n"
-    return [("song.sm", sm), ("song.ssc", ssc), ("Song.SSC", ssc), ("notes.txt", sm)]
+    return [("song.sm", sm), ("song.ssc", ssc), ("Song.SSC", ssc), ("notes.txt", sm), (".hidden.sm", sm)]
 
 
 def _run_mutate(fs, join, d, name, out, bak):
@@ -59,9 +59,9 @@ def run_conformance():
             finally:
                 shutil.rmtree(tmp, ignore_errors=True)
             if not (results["model"] == results["memoryfs"] == results["native"]):
-                bad.append(("mutate", name, out, bak, {k: (v[0], sorted(v[1])) for k, v in results.items()}))
+                bad.append(("mutate", name, out, bak, {k: (v[0], sorted(v[1])) for k, v in results.items()}, results["model"] == results["memoryfs"]))
     # discovery
-    tree = {"Pack": {"A": ["a.sm", "bg.png"], "B": ["B.SSC", "b.sm"], "C": ["x.sm.old"], "D": []}, "loose.sm": None}
+    tree = {"Pack": {"A": ["a.sm", "bg.png"], "B": ["B.SSC", "b.sm"], "C": ["x.sm.old"], "D": [], "E": [".sm"], "F": [".draft.SSC", "f.sm"], ".G": ["g.sm"]}, "loose.sm": None}
     def build_model():
         files, dirs, listing = {}, {"/r", "/r/Pack"}, {"/r": ["Pack", "loose.sm"], "/r/Pack": list(tree["Pack"])}
         files["/r/loose.sm"] = "#TITLE:l;"
@@ -95,7 +95,7 @@ def run_conformance():
     finally:
         shutil.rmtree(tmp, ignore_errors=True)
     if not (o_model == o_mem == o_nat):
-        bad.append(("discovery", o_model, o_mem, o_nat))
+        bad.append(("discovery", o_model, o_mem, o_nat, o_model == o_mem))
     xhlib.install_stub()
     return n, bad
 
@@ -103,11 +103,23 @@ def run_conformance():
 def ob_fs_conformance(budget_s=120):
     n, bad = run_conformance()
     r = dict(paths=n, checks=0, branches=n, solver_s=0.0, wall_s=0.0, info=None, model=None)
-    if bad:
+    native_only = [b for b in bad if b[-1]]      # the model and the real in-memory PyFilesystem agree, the native filesystem deviates
+    if bad and len(native_only) == len(bad):
+        # not a fault of the model: the repository's native filesystem layer behaves differently from a PyFilesystem, which the
+        # properties rule out ("on the native filesystem and on any PyFilesystem")
+        r.update(status="violated", cex={"scenario": str(native_only[0][:4])[:300]}, info="native filesystem deviates from MemoryFS (and from the model) on %d of %d scenarios: %s" % (len(native_only), n, str(native_only[0])[:300]))
+    elif bad:
         r.update(status="inconclusive", reason="the model filesystem disagrees with a real filesystem on %d of %d concrete scenarios: %s" % (len(bad), n, str(bad[0])[:400]), harness_error=True, fatal=True)
     else:
         r.update(status="discharged", reason="%d concrete scenarios agree on ModelFS, MemoryFS and the native filesystem" % n)
     return r
+
+
+def replay(data):
+    """(reproduced, message): re-run the scenarios; reproduced iff the native filesystem still deviates from MemoryFS and the model"""
+    n, bad = run_conformance()
+    native_only = [b for b in bad if b[-1]]
+    return bool(native_only), ("native filesystem deviates: %s" % str(native_only[0])[:600]) if native_only else "all %d scenarios agree" % n
 
 
 if __name__ == "__main__":
